@@ -235,7 +235,8 @@ def cases(tier, seed):
                         "axes0": "none", "mesh": "template", "T": T})
     # ---- beams -------------------------------------------------------------------------------
     for dim, motions in ((2, MOTIONS_2D), (3, MOTIONS_3D)):
-        for theory, et, structure, load, T in itertools.product(BEAM_THEORIES, Z.TYPES_1D, ["cantilever", "frame"], ["tip", "line"], motions):
+        # "linecouple": a line load with force AND distributed couple components (the couple is an axial vector)
+        for theory, et, structure, load, T in itertools.product(BEAM_THEORIES, Z.TYPES_1D, ["cantilever", "frame"], ["tip", "line", "linecouple"], motions):
             out.append({"kind": "beam", "dim": dim, "theory": theory, "elemType": et, "structure": structure, "load": load, "T": T})
         # the cantilever starting from an orientation that is not the x axis (closed form decides the ORIGINAL run too)
         starts = ["cantilever_gen"] if tier == "quick" else ["cantilever_gen", "cantilever_y"]
@@ -802,8 +803,12 @@ def _beam_solve(simu, case, sets, nmap, Q):
             simu.add_neumann(nmap[sets["tip"]], [float(F[0]), float(F[1]), float(M[2])], unk)
         else:
             simu.add_neumann(nmap[sets["tip"]], [float(x) for x in F] + [float(x) for x in M], unk)
-    else:
+    elif case["load"] == "line":
         simu.add_lineLoad(nmap[sets["all"]], [float(x) for x in q[:dim]], unk[:dim])
+    else:
+        m = Qa @ (BEAM_M0 * 0.7 if dim == 3 else np.array([0.0, 0.0, BEAM_M0[2] * 0.7]))
+        vals = [float(x) for x in q[:dim]] + ([float(m[2])] if dim == 2 else [float(x) for x in m])
+        simu.add_lineLoad(nmap[sets["all"]], vals, unk)
     nops += 1
     simu.Solve()
     return nops + 1
@@ -952,6 +957,8 @@ def _run_beam(case):
         def closed_form(way, obs, Qw):
             if not case["structure"].startswith("cantilever"):
                 return
+            if case["load"] == "linecouple":
+                return  # (no closed form written for the distributed couple: decided by covariance only)
             if timo and (case["elemType"] == "SEG2" or case["load"] == "line"):
                 return  # documented: SEG2 Timoshenko is O(h^2); nodal exactness under a distributed load holds for the Hermite elements only
             u, r = _cantilever_closed_form(case, members0[0], k_shear)
